@@ -387,6 +387,8 @@ fn variants(rep: &mut Report) {
 pub fn run(args: &Args, rep: &mut Report) {
     let mut rng = Rng::new(args.seed);
     let maxlen = args.get("maxlen", 64) as usize;
+    rep.sample("C12 slice case", "element type s3 (3-byte struct), len 5 at offset 3 of its buffer: CSliceRef/CSliceMut round trip must keep address, len, content; writes through the view must land in the buffer");
+    rep.sample("C12 UTF-8 decision case (bytes)", "[e0, 9f, bf] -> must be refused exactly like core::str::from_utf8 (valid_up_to=0, error_len=1)");
     let what = args.kv.get("what").map(|s| s.as_str()).unwrap_or("all").to_string();
     if what == "all" || what == "slices" {
         slices::<u8>(&mut rng, maxlen, rep);
